@@ -71,4 +71,22 @@ def run(chk: common.Check) -> None:
             oracle_fail.append((c, [f'{c["max_live_children"]} child processes alive at once (overlapping calls {c["calls"]})'], None))
         if c['child_alive_at_finished']:
             oracle_fail.append((c, [f"'finished' published while a child was alive (overlapping calls {c['calls']})"], 'overlap_child_alive_at_finished'))
+    # real spawn children: when 'finished' is published no child process of the object is alive — also for a script whose process
+    # takes seconds to exit after the script has returned (a non-daemon thread it left behind, thread tracing off)
+    rs = [{'statement': 'import threading, time\nthreading.Thread(target=time.sleep, args=(4.5,)).start()\nx = 1\n', 'mode': 'continuous',
+           'trace_threads': False, 'timeout': 40, 'why': 'slow-exit'},
+          {'statement': 'x = 1\ny = 2\n', 'policy': {'kind': 'all', 'command': 'next'}, 'timeout': 40, 'why': 'plain'},
+          {'statement': 'import time\ntime.sleep(0.2)\nx = 1\n', 'policy': {'kind': 'all', 'command': 'next'}, 'timeout': 40,
+           'signal': {'kind': 'kill', 'at_prompt': 1}, 'why': 'kill'}]
+    for r in common.real_runs(rs, jobs=3, hard_timeout=90):
+        sp = r['spec']
+        rec = r['rec']
+        chk.cov.case(('real', sp['why']))
+        chk.cov.count('kinds', 'real-child-' + sp['why'])
+        if rec is None or not rec.get('finished'):
+            oracle_fail.append(({'real_run': sp}, [f'real run did not finish: {(rec or {}).get("errors")}'], None))
+            continue
+        alive = rec.get('children_alive_at_finished')
+        if alive is None or any(a for a in alive):
+            oracle_fail.append(({'real_run': sp}, [f"'finished' was published while child processes {alive} of the object were alive"], None))
     _life.finish(chk, 'C15', oracle_fail, dis, 'child starts, state publications, call results')
